@@ -419,6 +419,7 @@ func checkC19(r *report.Report, tier string, seed int64) error {
 	bopt.Explicit = 1.4
 	bopt.Hooks = 0
 	bopt.MaxInterfaces = 1
+	bopt.CaseBias = true
 	if err := pipelineCheck(r, "C19", seed, tierN(tier, 64, 2000), bopt, nil,
 		func(cr *caseRun) bool { return cr.C.Features["explicit-target-case-variant"]+cr.C.Features["skip-case"] > 0 }, c19BuilderOracle); err != nil {
 		return err
